@@ -36,7 +36,8 @@ pub fn linfa_errors() -> Vec<(&'static str, linfa::Error, bool)> {
     use linfa::Error as E;
     vec![
         ("Parameters", E::Parameters("alpha must be > 0 (\"quoted\", unicode \u{3b1})".into()), false),
-        ("Priors", E::Priors("".into()), false),
+        ("Priors", E::Priors("priors must sum to 1".into()), false),
+        ("Parameters(empty string)", E::Parameters(String::new()), false),
         ("NotConverged", E::NotConverged("after 100 iterations".into()), false),
         // documented: `ShapeError` has no serde impl, the variant is `serde(skip)` => serialising refuses
         ("NdShape", E::NdShape(ndarray::ShapeError::from_kind(ndarray::ErrorKind::IncompatibleShape)), true),
@@ -265,6 +266,14 @@ fn kernel_matrix(r: &mut Runner) {
         for i in 0..k.size() {
             ob.fl(&format!("column{}", i), k.column(i));
         }
+        // the kernel function itself (field `method`) is not used by dot / column: evaluate it
+        let mut d = Vec::new();
+        for i in 0..rhs.nrows() {
+            for j in 0..rhs.nrows() {
+                d.push(k.method.distance(rhs.row(i), rhs.row(j)));
+            }
+        }
+        ob.fl("predict.method.distance", d);
         ob.done()
     }
     macro_rules! kinst {
